@@ -127,26 +127,54 @@ func solveOne(ob *Obligation, prelude string, gax []string, opts solveOpts) {
 	}
 	ob.File = file
 	final := ""
-	for _, sp := range solvers {
-		to := opts.timeout
-		if ob.Expect == "sat" {
-			to = 2
-			if sp.name != "z3-new" {
-				continue
-			}
-		}
-		st, out, dur := runSolver(sp, file, to)
-		ob.Raw[sp.name] = fmt.Sprintf("%s (%.2fs) %s", st, dur, trunc(strings.TrimSpace(out), 300))
+	type res struct {
+		name, st, out string
+		dur           float64
+	}
+	// z3-new first on its own for a short time (it decides almost everything at once); if it does not
+	// answer, race all three solvers concurrently with the full timeout
+	quickT := 3
+	if opts.timeout < quickT {
+		quickT = opts.timeout
+	}
+	first := solvers[0]
+	if ob.Expect == "sat" {
+		st, out, dur := runSolver(first, file, 2)
+		ob.Raw[first.name] = fmt.Sprintf("%s (%.2fs) %s", st, dur, trunc(strings.TrimSpace(out), 300))
 		ob.TimeS += dur
 		if st == "sat" || st == "unsat" {
-			if final == "" {
-				final = st
-				ob.Solver = sp.name
-			} else if final != st {
-				final = "conflict"
+			final = st
+			ob.Solver = first.name
+		}
+	} else {
+		st, out, dur := runSolver(first, file, quickT)
+		ob.Raw[first.name] = fmt.Sprintf("%s (%.2fs) %s", st, dur, trunc(strings.TrimSpace(out), 300))
+		ob.TimeS += dur
+		if (st == "sat" || st == "unsat") && !opts.all {
+			final = st
+			ob.Solver = first.name
+		} else {
+			ch := make(chan res, len(solvers))
+			for _, sp := range solvers {
+				go func(sp solverSpec) {
+					st, out, dur := runSolver(sp, file, opts.timeout)
+					ch <- res{sp.name, st, out, dur}
+				}(sp)
 			}
-			if !opts.all {
-				break
+			for range solvers {
+				r := <-ch
+				ob.Raw[r.name] = fmt.Sprintf("%s (%.2fs) %s", r.st, r.dur, trunc(strings.TrimSpace(r.out), 300))
+				if r.dur > ob.TimeS {
+					ob.TimeS = r.dur
+				}
+				if r.st == "sat" || r.st == "unsat" {
+					if final == "" {
+						final = r.st
+						ob.Solver = r.name
+					} else if final != r.st {
+						final = "conflict"
+					}
+				}
 			}
 		}
 	}
